@@ -18,8 +18,10 @@
    instances whose last status change is more than 5 s old (flag `old`, set by the environment action Tick)
    unless they are still activated or the parent of a running or activated instance; a discarded instance keeps
    its slot with status "GONE" (other flows may still hold a reference to the object).
-   NOT yet modelled (programs using them are outside the fragment): flow parameters, priority
-   statements, named loops, explicit FinishFlow / StopFlow events.
+   Slice 5 adds interaction loops (@loop("name") / @loop("NEW"), inherited from the parent otherwise, loop priority in the
+   order of the head candidates) and the `priority` statement (flow priority 1.0 / 0.5 multiplied into every match score).
+   NOT yet modelled (programs using them are outside the fragment): flow parameters, explicit FinishFlow / StopFlow
+   events, global variables.
 
    The program is the REAL compiler output (FlowConfig.elements exported as JSON by
    harness/colang2.export_sm): P below.  One TLA+ step = one run_to_completion call (macro step),
@@ -237,7 +239,7 @@ ArgsScore(args, ref) ==
   IF Len(ref) > Len(args) THEN <<FALSE, One>>
   ELSE IF ArgsScoreFrom(args, ref, 1) THEN <<TRUE, ScPow(Len(args) - Len(ref))>> ELSE <<FALSE, One>>
 (* _compute_event_matching_score: "pos" score / "zero" / "neg" *)
-MatchScore(S, k, hid, event) ==
+MatchScore0(S, k, hid, event) ==
   LET el  == ElAtHead(S, k, hid)
       rr  == RefEvent(S, k, el)
       ref == rr.ev
@@ -271,6 +273,9 @@ MatchScore(S, k, hid, event) ==
               a == ArgsScore(eargs, ref.args)
           IN IF a[1] THEN [kind |-> "pos", score |-> a[2]] ELSE [kind |-> "zero", score |-> One]
 
+MatchScore(S, k, hid, event) ==       \* a positive score is scaled by the priority of the flow
+  LET m == MatchScore0(S, k, hid, event) IN IF m.kind = "pos" THEN [m EXCEPT !.score = ScMul(@, Fl(S, k).prio)] ELSE m
+
 (* ------------------------------------------------------------------ flow life cycle *)
 NewHead(hid, pos, scores, catch, scopes) ==
   [hid |-> hid, pos |-> pos, status |-> "ACTIVE", scores |-> scores, catch |-> catch, scopes |-> scopes, children |-> <<>>]
@@ -278,7 +283,8 @@ NewHead(hid, pos, scores, catch, scopes) ==
 AddInstance(S, fid, hier, uidn) ==
   LET k  == Len(S.flows) + 1
       f  == [fid |-> fid, uid |-> uidn, status |-> "WAITING", parent |-> 0, parentHead |-> 0, children |-> <<>>, activated |-> 0,
-             loop |-> <<"none", 0>>, hier |-> hier, ctx |-> <<>>, actions |-> <<>>, heads |-> <<NewHead(1, 0, <<>>, <<>>, <<>>)>>,
+             loop |-> (IF Cfg(fid).loop.type = "NEW" THEN <<"new", 1000 + k>> ELSE IF Cfg(fid).loop.type = "NAMED" THEN <<Cfg(fid).loop.id, 0>> ELSE <<"none", 0>>),
+             prio |-> One, hier |-> hier, ctx |-> <<>>, actions |-> <<>>, heads |-> <<NewHead(1, 0, <<>>, <<>>, <<>>)>>,
              forks |-> <<>>, scopes |-> <<>>, newinst |-> FALSE, nexthid |-> 2, old |-> FALSE]
       S1 == [S EXCEPT !.flows = Append(@, f)]
   IN HeadChanged(S1, k, 1)
@@ -362,7 +368,8 @@ StartFlowInst(S, k, evargs) ==
   ELSE LET p  == UidToInst(S, ArgVal(evargs, "source_flow_instance_uid"))
            ph == ArgVal(evargs, "source_head_uid")[2]
            av == IF "activated" \in ArgKeys(evargs) THEN ArgVal(evargs, "activated") ELSE <<"i", 0>>
-           S1 == [S EXCEPT !.flows[k].parent = p, !.flows[k].parentHead = ph, !.flows[k].loop = Fl(S, p).loop,
+           S1 == [S EXCEPT !.flows[k].parent = p, !.flows[k].parentHead = ph, !.flows[k].loop = (IF Cfg(Fl(S, k).fid).loop.id = "" THEN Fl(S, p).loop
+                                               ELSE IF Cfg(Fl(S, k).fid).loop.id = "NEW" THEN <<"new", k>> ELSE <<Cfg(Fl(S, k).fid).loop.id, 0>>),
                            !.flows[k].activated = IF av[1] = "b" THEN (IF av[2] THEN 1 ELSE 0) ELSE av[2]]
        IN [S1 EXCEPT !.flows[p].children = Append(@, k)]
 
@@ -505,7 +512,11 @@ Slide(S, k, hid, fuel) ==
                         \* remove the scope from all heads of the flow
                         S3 == [S2 EXCEPT !.flows[k].heads = [q \in 1..Len(@) |-> [@[q] EXCEPT !.scopes = SelectSeq(@, LAMBDA s : s # e.label)]]]
                     IN Slide(SetPos(S3, k, hid, Hd(S3, k, hid).pos + 1), k, hid, fuel - 1))
-         [] OTHER -> Slide(SetPos(S, k, hid, h.pos + 1), k, hid, fuel - 1)         \* priority / global / log / print / unknown: skipped in slice 1
+         [] e.k = "priority" ->          \* the fragment has the float constants 1.0 and 0.5; anything else is not a float in [0, 1]: ColangValueError
+              (IF e.expr.k = "const" /\ e.expr.t = "f" /\ e.expr.v \in {"1.0", "0.5"}
+                 THEN Slide(SetPos([S EXCEPT !.flows[k].prio = IF e.expr.v = "0.5" THEN <<0, 1, 2>> ELSE One], k, hid, h.pos + 1), k, hid, fuel - 1)
+                 ELSE [S |-> S, new |-> <<>>, err |-> TRUE])
+         [] OTHER -> Slide(SetPos(S, k, hid, h.pos + 1), k, hid, fuel - 1)         \* log / print / unknown
 
 (* ------------------------------------------------------------------ _advance_head_front *)
 (* heads: sequence of <<k, hid>>; returns [S, act (actionable heads)] *)
@@ -565,7 +576,8 @@ Candidates(S, event) ==
               ELSE IF event.name = "FlowFailed" THEN CandsFor(S, "FlowStarted") \o CandsFor(S, "FlowFinished") ELSE <<>>
       \* sorted(key = (-loop_priority, hierarchy_position)): ascending, stable  ==  descending on the negated key
       all == base \o ext
-  IN Items(SortPairs([i \in 1..Len(all) |-> <<all[i], HierChars(Fl(S, all[i][1]).hier)>>], "chars-asc"))
+      \* key = (-loop_priority, hierarchy_position): 1000 - priority in front of the characters of the position
+  IN Items(SortPairs([i \in 1..Len(all) |-> <<all[i], <<1000 - Cfg(Fl(S, all[i][1]).fid).loop_priority>> \o HierChars(Fl(S, all[i][1]).hier)>>], "chars-asc"))
 
 RECURSIVE ScoreCands(_, _, _, _)
 (* walks the candidates: returns [S, matching, failing, handled (set of loops or "all")] *)
@@ -696,7 +708,13 @@ ResolveGroups(S, groups, adv) ==
            picked  == leaders[(S.pick % Len(leaders)) + 1]
            S1 == Emit(S, picked)
            r  == ResolveGroup(S1, ordered, picked, 1, Append(adv, picked))
-       IN ResolveGroups(r.S, Tail(groups), r.adv)
+           \* ghost: what was decided for this group (read by the C05 property of MC_ColangSM)
+           rec == [round |-> S.round, loop |-> Head(groups)[1], picked |-> picked, nout |-> Len(r.S.out) - Len(S.out),
+                   cands |-> [i \in 1..Len(g) |-> [kh |-> g[i], scores |-> Hd(S, g[i][1], g[i][2]).scores, ev |-> SendEvent(S, g[i]),
+                                                    catch |-> Hd(S, g[i][1], g[i][2]).catch # <<>>,
+                                                    adv |-> g[i] \in Range(r.adv),
+                                                    stopped |-> ~Listening(Fl(r.S, g[i][1]))]]]
+       IN ResolveGroups([r.S EXCEPT !.res = Append(@, rec)], Tail(groups), r.adv)
 Resolve(S, heads) ==
   IF heads = <<>> THEN [S |-> S, adv |-> <<>>]
   ELSE IF Len(heads) = 1 THEN [S |-> Emit(S, heads[1]), adv |-> heads]
@@ -720,7 +738,7 @@ Inner(S, act, fuel) ==
 Outer(S, act, fuel) ==
   LET i  == Inner(S, act, 50)
       a1 == SelectSeq(i.act, LAMBDA kh : HasH(i.S, kh[1], kh[2]) /\ ActiveFlow(Fl(i.S, kh[1])) /\ HStatus(i.S, kh) = "ACTIVE")
-      r  == Resolve(i.S, a1)
+      r  == Resolve([i.S EXCEPT !.round = @ + 1], a1)
   IN IF r.adv = <<>> THEN r.S
      ELSE IF fuel = 0 THEN [r.S EXCEPT !.fuelout = TRUE]
      ELSE LET ad == AdvanceFront(r.S, r.adv) IN Outer(ad.S, ad.act, fuel - 1)
@@ -746,11 +764,11 @@ CleanUp(S) == RemoveInOrder(S, Removable(S), 1)
 Tick(S) == [S EXCEPT !.flows = [k \in 1..Len(@) |-> IF DoneF(@[k]) THEN [@[k] EXCEPT !.old = TRUE] ELSE @[k]]]
 (* nev counts the internal events processed by this call; fuelout is set where a recursion budget of the
    specification ran out, i.e. where the code (which has no budget) would not have returned *)
-Run(S, ev, pick) == Outer(DropUnreferencedActions(CleanUp(ClearScores([S EXCEPT !.queue = <<ev>>, !.out = <<>>, !.pick = pick, !.nev = 0]))), <<>>, 50)
+Run(S, ev, pick) == Outer(DropUnreferencedActions(CleanUp(ClearScores([S EXCEPT !.queue = <<ev>>, !.out = <<>>, !.pick = pick, !.nev = 0, !.res = <<>>, !.round = 0]))), <<>>, 50)
 
 (* initialize_state: the main instance, waiting at position 0 *)
 Init0 ==
-  LET S0 == [flows |-> <<>>, actions |-> <<>>, queue |-> <<>>, out |-> <<>>, index |-> <<>>, nuid |-> 100, pick |-> 0, nev |-> 0, fuelout |-> FALSE]
+  LET S0 == [flows |-> <<>>, actions |-> <<>>, queue |-> <<>>, out |-> <<>>, index |-> <<>>, nuid |-> 100, pick |-> 0, nev |-> 0, fuelout |-> FALSE, res |-> <<>>, round |-> 0]
       S1 == AddInstance(S0, "main", <<0>>, 1)
   IN [S1 EXCEPT !.flows[1].activated = 1, !.flows[1].loop = <<"main", 0>>]
 ExtEvent(name, args) == Ev(name, args, <<>>, "E", 0)
